@@ -1,5 +1,216 @@
-import ErdosVerif.Model.Sim
+import ErdosVerif.Lemmas.SimInv
+/-!
+# C02 — tasks start only after release and after their predecessors finish
+
+Models: `Model/Task.lean` (the `Task` state machine), `Model/TaskGraph.lean`
+(`is_ready_to_run`, completion notification, cancellation), `Model/Sim.lean` (the
+simulator loop, whose only way to start a task — `startTask` — demands a proof of
+`is_ready_to_run`, exactly as `simulator.py` tests it before `Task.start`).
+
+"Has started" is `RUNNING ∨ EVICTED ∨ COMPLETED`. COMPLETED / EVICTED are final and
+`release` refuses a task that has started, so "the predecessors are complete *now*
+and `release ≤ start` *now*" is the same as "when the task started".
+-/
 namespace ErdosVerif.C02
-open ErdosVerif.Model
-theorem placeholder : ET.taskFinished = 3 := rfl
+open ErdosVerif.Model ErdosVerif.Model.Sim
+
+/-- **At every instant of every run** (any workload DAGs, any decision tape — including
+placements in the future for unreleased tasks —, any draws, any flags, normal or aborted
+runs), every task that has started was released no later than it started, and
+
+* a non-terminal task has **all** its predecessors complete;
+* a terminal (join) task has at least one predecessor complete — this is what
+  `is_ready_to_run` tests, and it is weaker than "the branch that was taken"; see
+  `join_partial` below and known finding C02-J1. -/
+theorem started_after_release_and_parents (s0 : SimS) (fuel : Nat) (h : Inv s0) :
+    ∀ g ∈ (simulate s0 fuel).2.graphs.toList, ∀ n t, g.task? n = some t → t.started = true →
+      t.release ≤ t.start ∧
+      (if t.terminal then (g.pars n).any g.completeOf else (g.pars n).all g.completeOf) = true := by
+  intro g hg n t ht hs
+  exact ((simulate_inv s0 fuel h).2.2.1 g hg).started n t ht hs
+
+/-- Full-strength corollary for every non-join task. -/
+theorem started_after_all_parents (s0 : SimS) (fuel : Nat) (h : Inv s0) :
+    ∀ g ∈ (simulate s0 fuel).2.graphs.toList, ∀ n t, g.task? n = some t → t.started = true →
+      t.terminal = false → ∀ p ∈ g.pars n, g.completeOf p = true := by
+  intro g hg n t ht hs hterm p hp
+  have := (started_after_release_and_parents s0 fuel h g hg n t ht hs).2
+  simp only [hterm, Bool.false_eq_true, if_false, List.all_eq_true] at this
+  exact this p hp
+
+/-- What is proved for the join of a conditional is only "some branch has completed";
+the property asks for "the branch that was taken has completed". The code tests the
+former (`any(parent.is_complete())`), which differs when the taken branch forks before
+the join (known finding C02-J1, reproduced on the implementation by the C02 oracle). -/
+theorem join_partial (s0 : SimS) (fuel : Nat) (h : Inv s0) :
+    ∀ g ∈ (simulate s0 fuel).2.graphs.toList, ∀ n t, g.task? n = some t → t.started = true →
+      t.terminal = true → ∃ p ∈ g.pars n, g.completeOf p = true := by
+  intro g hg n t ht hs hterm
+  have := (started_after_release_and_parents s0 fuel h g hg n t ht hs).2
+  simpa only [hterm, if_true, List.any_eq_true] using this
+
+/-- `Task.start` itself refuses a start time earlier than the release time (and a task
+that is not SCHEDULED): the state does not become RUNNING. -/
+theorem start_before_release_refused (t : TaskS) (time fuzzed : Int) (h : time < t.release) :
+    (t.doStart time fuzzed).2 ≠ none ∧ (t.doStart time fuzzed).1.state = t.state := by
+  unfold TaskS.doStart
+  split
+  · exact ⟨by simp, rfl⟩
+  · split
+    · exact ⟨by simp, rfl⟩
+    · simp [h]
+
+/-- The simulator never preempts: no task is ever PREEMPTED in any run of the model. -/
+theorem never_preempted (s0 : SimS) (fuel : Nat) (h : Inv s0) :
+    ∀ g ∈ (simulate s0 fuel).2.graphs.toList, ∀ n t, g.task? n = some t → t.state ≠ .preempted := by
+  intro g hg n t ht
+  exact ((simulate_inv s0 fuel h).2.2.1 g hg).noPreempt n t ht
+
+/-! ### A non-preempted task starts at most once and completes at most once -/
+
+/-- Number of calls in the history at which the state enters the class `p`. -/
+def enters (p : TState → Bool) (t : TaskS) : List TaskCall → Nat
+  | [] => 0
+  | c :: cs => (if !p t.state && p (t.call c).1.state then 1 else 0) + enters p (t.call c).1 cs
+
+def isStarted (s : TState) : Bool := s == .running || s == .evicted || s == .completed
+def isDone (s : TState) : Bool := s == .evicted || s == .completed
+
+theorem notPreempt_stepOK (t : TaskS) (c : TaskCall) (h : t.PreOK) (hc : c ≠ .preempt) :
+    (t.call c).1.state ≠ .preempted ∨ t.state = .preempted := by
+  by_cases hp : t.state = .preempted
+  · exact Or.inr hp
+  left
+  cases c with
+  | preempt => exact absurd rfl hc
+  | release time =>
+    simp only [TaskS.call, TaskS.doRelease]
+    split
+    · exact hp
+    · split
+      · exact hp
+      · cases time <;> simp only [] <;> split <;> first | exact hp | simp
+  | schedule time p =>
+    simp only [TaskS.call, TaskS.doSchedule]
+    split
+    · exact hp
+    · cases p.strat with
+      | none => simp
+      | some s => simp only []; rw [(updateRemaining_state _ _).1]; simp
+  | unschedule =>
+    simp only [TaskS.call, TaskS.doUnschedule]
+    split
+    · exact hp
+    · simp only []; rcases h with h | h <;> simp [h]
+  | start time fuzzed =>
+    simp only [TaskS.call, TaskS.doStart]
+    split
+    · exact hp
+    · split
+      · exact hp
+      · split
+        · exact hp
+        · rw [(updateRemaining_state _ _).1]; simp
+  | step now dt =>
+    simp only [TaskS.call, TaskS.doStep]
+    split
+    · exact hp
+    · split
+      · exact hp
+      · split
+        · exact hp
+        · split <;> exact hp
+  | finish time =>
+    simp only [TaskS.call, TaskS.doFinish]
+    split
+    · exact hp
+    · simp only []; split <;> simp
+  | cancel time =>
+    simp only [TaskS.call, TaskS.doCancel]
+    split
+    · exact hp
+    · simp
+  | updateRemaining r =>
+    simp only [TaskS.call]; rw [(updateRemaining_state _ _).1]; exact hp
+
+/-- Without `preempt`, "has started" is absorbing. -/
+theorem started_absorbing (t : TaskS) (c : TaskCall) (h : t.PreOK) (hc : c ≠ .preempt)
+    (hs : isStarted t.state = true) : isStarted (t.call c).1.state = true := by
+  rcases call_legal t c h with e | e
+  · rw [← e]; exact hs
+  · rcases notPreempt_stepOK t c h hc with hp | hp
+    · revert e hp hs
+      cases t.state <;> cases (t.call c).1.state <;> simp [Legal, isStarted]
+    · rw [hp] at hs; simp [isStarted] at hs
+
+/-- "Is complete" (COMPLETED / EVICTED) is absorbing, with or without preemption. -/
+theorem done_absorbing (t : TaskS) (c : TaskCall) (h : t.PreOK)
+    (hs : isDone t.state = true) : isDone (t.call c).1.state = true := by
+  rcases call_legal t c h with e | e
+  · rw [← e]; exact hs
+  · revert e hs
+    cases t.state <;> cases (t.call c).1.state <;> simp [Legal, isDone]
+
+/-- Once a class is absorbing along the history, the state enters it at most once. -/
+theorem enters_le_one (p : TState → Bool) (ok : TaskCall → Prop)
+    (habs : ∀ (t : TaskS) (c : TaskCall), t.PreOK → ok c → p t.state = true → p (t.call c).1.state = true)
+    (cs : List TaskCall) (hok : ∀ c ∈ cs, ok c) (t : TaskS) (h : t.PreOK) :
+    enters p t cs ≤ 1 ∧ (p t.state = true → enters p t cs = 0) := by
+  induction cs generalizing t with
+  | nil => simp [enters]
+  | cons c cs ih =>
+    have hc := hok c (List.mem_cons_self ..)
+    have ih' := ih (fun c hc => hok c (List.mem_cons_of_mem _ hc)) (t.call c).1 (call_preOK t c h)
+    by_cases hp : p t.state = true
+    · have := ih'.2 (habs t c h hc hp)
+      simp [enters, hp, this]
+    · by_cases hq : p (t.call c).1.state = true
+      · have := ih'.2 hq
+        simp [enters, hp, hq, this]
+      · have := ih'.1
+        simp only [enters, hq, Bool.and_false, Bool.false_eq_true, if_false, Nat.zero_add]
+        exact ⟨this, fun hh => absurd hh hp⟩
+
+/-- **A non-preempted task starts at most once**: along any history of `Task` API calls
+that contains no `preempt`, the state becomes RUNNING (from a state that is not RUNNING)
+at most once. -/
+theorem starts_at_most_once (t : TaskS) (cs : List TaskCall) (h : t.PreOK) (hnp : ∀ c ∈ cs, c ≠ .preempt) :
+    enters (· == .running) t cs ≤ 1 := by
+  -- entering RUNNING is entering "started": EVICTED / COMPLETED never lead back to RUNNING
+  have hle : ∀ (cs : List TaskCall) (t : TaskS), t.PreOK → (∀ c ∈ cs, c ≠ .preempt) →
+      enters (· == .running) t cs ≤ enters isStarted t cs := by
+    intro cs
+    induction cs with
+    | nil => intro t _ _; simp [enters]
+    | cons c cs ih =>
+      intro t h hnp
+      have ih' := ih (t.call c).1 (call_preOK t c h) (fun c hc => hnp c (List.mem_cons_of_mem _ hc))
+      have : (if (!(t.state == .running) && ((t.call c).1.state == .running)) = true then 1 else 0) ≤
+             (if (!isStarted t.state && isStarted (t.call c).1.state) = true then 1 else 0) := by
+        rcases call_legal t c h with e | e
+        · rw [← e]; simp
+        · revert e
+          cases t.state <;> cases (t.call c).1.state <;> simp [Legal, isStarted]
+      simp only [enters]
+      omega
+  exact Nat.le_trans (hle cs t h hnp)
+    (enters_le_one isStarted (· ≠ .preempt) (fun t c hp hc hs => started_absorbing t c hp hc hs) cs hnp t h).1
+
+/-- **A task completes at most once**: along any history of API calls the state
+becomes COMPLETED / EVICTED at most once (and `finish` on a finished task is refused). -/
+theorem completes_at_most_once (t : TaskS) (cs : List TaskCall) (h : t.PreOK) :
+    enters isDone t cs ≤ 1 :=
+  (enters_le_one isDone (fun _ => True) (fun t c hp _ hs => done_absorbing t c hp hs) cs
+    (fun _ _ => trivial) t h).1
+
+/-- Non-vacuity: a concrete history (release, schedule, start, step, finish, and a
+second refused start) enters RUNNING exactly once and finishes exactly once. -/
+example :
+    let t : TaskS := { name := "a", conditional := false, terminal := false, prob := 1000,
+                       strategies := [], profile := 0, deadline := 100 }
+    let p : PlacementS := { kind := .place, task := ⟨0, 0⟩, pool := some 0, worker := some 0,
+                            strat := some ⟨0, false, 1, 5, []⟩ }
+    let cs : List TaskCall := [.release (some 1), .schedule 1 p, .start 2 5, .step 2 5, .finish none, .start 9 5]
+    enters (· == .running) t cs = 1 ∧ enters isDone t cs = 1 := by decide
+
 end ErdosVerif.C02
